@@ -101,6 +101,27 @@ func leaves(tk tokens) []tree {
 				fmt.Sprintf("DNSError(transport-text-%d,flags=%d)", di, fl), sec...)
 		}
 	}
+	// the same kind of description with the peer named in the other forms a
+	// host:port pair can take: a DNS server given by name, a bracketed IPv4
+	// literal, a service name or an out-of-range number as port, a zoned IPv6
+	// literal
+	for fl := 0; fl < 8; fl += 3 {
+		for di, v := range []struct {
+			desc string
+			sec  []secret
+		}{
+			{"dial tcp " + tk.host2 + ":853: connect: connection refused", []secret{{tk.host2, "DNSError.Err(server name)"}}},
+			{"dial tcp [" + tk.v4 + "]:53: i/o timeout", []secret{{tk.v4, "DNSError.Err(server address)"}}},
+			{"read udp " + tk.v4b + ":4242->" + tk.host2 + ":domain: i/o timeout", []secret{{tk.v4b, "DNSError.Err(source address)"}, {tk.host2, "DNSError.Err(server name)"}}},
+			{"dial tcp " + tk.v4 + ":70000: invalid port", []secret{{tk.v4, "DNSError.Err(server address)"}}},
+			{"dial tcp " + tk.host2 + ":https: unknown port", []secret{{tk.host2, "DNSError.Err(server name)"}}},
+			{"dial udp [" + tk.v6 + "%eth0]:53: connect: no route to host", []secret{{tk.v6, "DNSError.Err(server address)"}}},
+		} {
+			sec := append([]secret{{tk.host, "DNSError.Name"}}, v.sec...)
+			add(&net.DNSError{Err: v.desc, Name: tk.host, Server: tk.host2 + ":853", IsNotFound: fl&1 != 0, IsTimeout: fl&2 != 0, IsTemporary: fl&4 != 0},
+				fmt.Sprintf("DNSError(transport-text-form-%d,flags=%d)", di, fl), sec...)
+		}
+	}
 	add(net.InvalidAddrError("invalid address "+tk.v4), "InvalidAddrError", secret{tk.v4, "InvalidAddrError"})
 	iae := net.InvalidAddrError("bad " + tk.host)
 	add(&iae, "*InvalidAddrError", secret{tk.host, "InvalidAddrError"})
